@@ -315,8 +315,21 @@ def sym_abs(x):
     return abs(x)
 
 
+def _unshadow(c):
+    if c is sym_int:
+        return int
+    if c is sym_float:
+        return float
+    return c
+
+
 def sym_isinstance(obj, cls):
     """isinstance that lets a proxy pass for the scalar it stands for"""
+    # the module-level shadows of int/float are functions: map them back to the types
+    if isinstance(cls, tuple):
+        cls = tuple(_unshadow(c) for c in cls)
+    else:
+        cls = _unshadow(cls)
     if isinstance(obj, Sym):
         classes = cls if isinstance(cls, tuple) else (cls,)
         for c in classes:
